@@ -125,6 +125,29 @@ static void elim_case(const vh_args_t *a, int op) {
   vh_free_all();
 }
 
+/* dimensions at which the automatic choice of the table parameter reaches its cap (it grows with log2 of the smaller
+ * dimension): a very large, very sparse matrix - a diagonal stretch plus scattered entries, rank around 100 - so that the
+ * trace stays small and the validator can still reduce it */
+static void elim_huge_case(int which) {
+  int m = 32768 + 64 * vh_randint(0, 2) + vh_randint(0, 1), n = which == 3 ? 17000 + vh_randint(0, 1400) : 32768 + vh_randint(0, 100);
+  if (which == 3) m = 16384 + vh_randint(0, 70);
+  mzd_t *A = vh_new(m, n);
+  int d0 = vh_randint(0, m - 200), c0 = vh_randint(0, n - 200), len = vh_randint(20, 90);
+  for (int i = 0; i < len; i++) mzd_write_bit(A, d0 + i, c0 + i + (i > len / 2), 1);
+  for (int t = 0; t < 60; t++) mzd_write_bit(A, vh_randint(0, m - 1), vh_randint(0, 5) ? vh_randint(0, n - 1) : c0 + vh_randint(0, 120), 1);
+  int full = vh_randint(0, 1);
+  vh_ev_t e;
+  static const char *nm[] = {"echelonize_m4ri", "echelonize", "echelonize_pluq", "echelonize_m4ri"};
+  vh_begin(&e, nm[which]);
+  vh_pi(&e, "full", full); vh_pi(&e, "k", 0); vh_pi(&e, "heur", 0); vh_pi(&e, "thr", 0);
+  vh_opnd(&e, "A", 'b', A);
+  vh_pre(&e);
+  if (VH_CALL(&e)) e.ret = which == 1 ? mzd_echelonize(A, full) : which == 2 ? mzd_echelonize_pluq(A, full) : mzd_echelonize_m4ri(A, full, 0);
+  VH_END(&e);
+  vh_post(&e);
+  vh_free_all();
+}
+
 /* sweep: a block of exactly kbar consecutive pivot columns (1 <= kbar <= 6k) followed by a pivot gap, placed
  * after `lead` leading pivots, for every table parameter k: every table count 1..6 of the M4RI block loop
  * and of the top reduction, with kbar == kk as well as kbar < kk */
@@ -199,6 +222,16 @@ int fam_elim(const vh_args_t *a) {
     VH_CASE(idx)
     elim_case(a, (int)(idx % E_NOPS));
     VH_CASE_END
+  }
+  if (strstr(a->extra, "huge")) {
+    for (long h = 0; h < (a->tier ? 8 : 4); h++) {
+      long hidx = 5000000 + h;
+      if (!VH_SHARD(a, hidx)) continue;
+      vh_case_seed(a, hidx);
+      VH_CASE(hidx)
+      elim_huge_case((int)(h % 4));
+      VH_CASE_END
+    }
   }
   if (strstr(a->extra, "nosweep")) return 0;
   {
@@ -481,6 +514,26 @@ int fam_trsm(const vh_args_t *a) {
 }
 
 /* ------------------------------------------------------------------- inv */
+/* the automatic table parameter grows with the dimension (and is capped so that a block of six tables fits one word):
+ * one inversion large enough that an uncapped choice would not fit - a sparse invertible matrix, so that the trace
+ * stays small and the validator can multiply it out */
+static void inv_huge_case(void) {
+  int n = 32768 + 64 * vh_randint(0, 2) + vh_randint(0, 1);
+  vh_ev_t e;
+  mzd_t *R = NULL;
+  mzd_t *A = vh_new(n, n);
+  vh_fill_sparse_invertible(A);
+  vh_begin(&e, "inv_m4ri");
+  vh_pi(&e, "k", 0);
+  vh_opnd(&e, "D", 'o', NULL); vh_opnd(&e, "A", 'i', A);
+  vh_pre(&e);
+  if (VH_CALL(&e)) R = mzd_inv_m4ri(NULL, A, 0);
+  VH_END(&e);
+  if (!e.die) vh_result(&e, "R", R);
+  vh_post(&e);
+  vh_free_all();
+}
+
 static void inv_case(const vh_args_t *a, int op) {
   static const int NS[] = {1, 2, 3, 17, 63, 64, 65, 100, 127, 128, 129, 192, 193, 200, 256, 257};
   int n = NS[vh_randint(0, 15)];
@@ -563,6 +616,10 @@ int fam_inv(const vh_args_t *a) {
     VH_CASE(idx)
     inv_case(a, (int)(idx % 4));
     VH_CASE_END
+  }
+  if (strstr(a->extra, "huge")) {
+    long hidx = 5000000;
+    if (VH_SHARD(a, hidx)) { vh_case_seed(a, hidx); VH_CASE(hidx) inv_huge_case(); VH_CASE_END }
   }
   if (strstr(a->extra, "nosweep")) return 0;
   long sidx = ncases;
